@@ -25,9 +25,6 @@ Definition cons_result (sp : spec) (k : constraint) (c : list clause) (b2 : bool
       end
   end.
 
-Lemma mem_nat_seq0 x k : mem_nat x (seq 0 k) = (x <? k).
-Proof. rewrite mem_nat_seq. cbn [Nat.leb Nat.add andb]. reflexivity. Qed.
-
 Section Cons.
   Variables (sp : spec) (b2 : bool).
   Notation n := (sp_n sp).
